@@ -10,6 +10,7 @@ import (
 	"fmt"
 	"math/big"
 	"sort"
+	"strconv"
 	"strings"
 	"time"
 
@@ -156,24 +157,81 @@ func (d *drv) scenario(in c02.Input) *c02.Scen {
 			}
 		}
 	}
-	// paths produced by the document resolvers carry the configured hasher
+	// EVERY path-producing API reachable from Options / the merklizer: the returned Path must
+	// hash with the configured hasher; when its parts are those of a stored entry, its key must be
+	// the entry's key and Proof must return a verifying existence proof
+	byParts := map[string]mzrun.EntryView{}
+	for _, v := range s.Entries {
+		byParts[fmt.Sprintf("%#v", v.Parts)] = v
+	}
+	type producer struct {
+		name string
+		pk   int
+		arg  string
+		mk   func() (merklize.Path, error)
+	}
+	var prods []producer
+	optsList := []struct {
+		name string
+		o    merklize.Options
+	}{{"mz.Options()", s.Mz.Options()}}
+	if in.Cfg {
+		optsList = append(optsList, struct {
+			name string
+			o    merklize.Options
+		}{"Options{Hasher}", merklize.Options{Hasher: s.Rc, DocumentLoader: e.Loader}})
+	}
 	for _, dp := range in.DocPaths {
-		for which, mk := range []func() (merklize.Path, error){
-			func() (merklize.Path, error) { return s.Mz.ResolveDocPath(dp) },
-			func() (merklize.Path, error) { return s.Mz.Options().NewPathFromDocument(in.Doc, dp) },
-		} {
-			p, err := mk()
-			if err != nil {
-				d.rep.Count("resolver-error")
-				continue
+		dp := dp
+		prods = append(prods, producer{"Merklizer.ResolveDocPath", 5, dp, func() (merklize.Path, error) { return s.Mz.ResolveDocPath(dp) }})
+		for _, ol := range optsList {
+			o := ol.o
+			prods = append(prods, producer{ol.name + ".NewPathFromDocument", 4, dp, func() (merklize.Path, error) { return o.NewPathFromDocument(in.Doc, dp) }})
+		}
+	}
+	if len(in.CtxBytes) > 0 && in.TypeTerm != "" {
+		for _, fp := range in.FieldPaths {
+			fp := fp
+			for _, ol := range optsList {
+				o := ol.o
+				prods = append(prods,
+					producer{ol.name + ".PathFromContext", 2, in.TypeTerm + "." + fp, func() (merklize.Path, error) { return o.PathFromContext(in.CtxBytes, in.TypeTerm+"."+fp) }},
+					producer{ol.name + ".FieldPathFromContext", 3, in.TypeTerm + " / " + fp, func() (merklize.Path, error) { return o.FieldPathFromContext(in.CtxBytes, in.TypeTerm, fp) }})
 			}
-			d.rep.Count("resolver-path")
-			e.PathObjKeyStep(s, p)
-			if in.Cfg {
-				k, kerr := p.MtEntry()
-				k0, err0 := indepKey(raw, p.Parts())
-				if (kerr == nil) != (err0 == nil) || (kerr == nil && k.Cmp(k0) != 0) {
-					d.rep.Fail("c16-resolved-path-hasher", fmt.Sprintf("path %q resolved by resolver %d does not hash with the configured hasher", dp, which), map[string]any{"scenario": in, "doc_path": dp})
+		}
+		for _, ol := range optsList {
+			o := ol.o
+			prods = append(prods, producer{ol.name + ".PathFromContext", 2, in.TypeTerm, func() (merklize.Path, error) { return o.PathFromContext(in.CtxBytes, in.TypeTerm) }})
+		}
+	}
+	for _, pr := range prods {
+		p, err := pr.mk()
+		if err != nil {
+			d.rep.Count("path-api-error:" + pr.name)
+			continue
+		}
+		d.rep.Count("path-api:" + pr.name)
+		d.rep.Evaluations++
+		e.PathObjKeyStep(s, pr.pk, p)
+		fin := map[string]any{"scenario": in, "api": pr.name, "arg": pr.arg}
+		k, kerr := p.MtEntry()
+		k0, err0 := indepKey(raw, p.Parts())
+		if (kerr == nil) != (err0 == nil) || (kerr == nil && k.Cmp(k0) != 0) {
+			d.rep.Fail("c16-resolved-path-hasher", fmt.Sprintf("the path %v returned by %s(%q) does not hash with the merklizer's hasher", p.Parts(), pr.name, pr.arg), fin)
+			continue
+		}
+		if v, isEntry := byParts[fmt.Sprintf("%#v", p.Parts())]; isEntry && kerr == nil {
+			d.rep.Count("path-api-member:" + pr.name)
+			sk, _ := v.Entry.KeyMtEntry()
+			proof, val, perr := s.Mz.Proof(ctx, p)
+			switch {
+			case sk == nil || sk.Cmp(k) != 0:
+				d.rep.Fail("c16-resolved-path-key", fmt.Sprintf("%s(%q): key differs from the key the entry %v is stored under", pr.name, pr.arg, v.Parts), fin)
+			case perr != nil || !proof.Existence || val == nil:
+				d.rep.Fail("c16-resolved-path-proof", fmt.Sprintf("%s(%q): no existence proof for the stored entry %v", pr.name, pr.arg, v.Parts), fin)
+			default:
+				if vh, _ := val.MtEntry(); vh == nil || !merkletree.VerifyProof(s.Mz.Root(), proof, k, vh) {
+					d.rep.Fail("c16-resolved-path-proof", fmt.Sprintf("%s(%q): proof for %v does not verify", pr.name, pr.arg, v.Parts), fin)
 				}
 			}
 		}
@@ -276,6 +334,32 @@ func boundaryDocs(p *big.Int) []struct {
 	return out
 }
 
+// fixedInput: type-scoped context with a nested property-scoped one; every field is reachable by
+// PathFromContext, FieldPathFromContext, NewPathFromDocument and ResolveDocPath.
+func fixedInput(hi int, seed int64) c02.Input {
+	v := docgen.Vocab
+	ctx := map[string]any{
+		"@version": 1.1,
+		"Person": map[string]any{"@id": v + "Person", "@context": map[string]any{
+			"name": map[string]any{"@id": v + "name", "@type": xsd + "string"},
+			"age":  map[string]any{"@id": v + "age", "@type": xsd + "integer"},
+			"member": map[string]any{"@id": v + "member", "@type": xsd + "boolean"},
+			"since": map[string]any{"@id": v + "since", "@type": xsd + "dateTime"},
+			"address": map[string]any{"@id": v + "address", "@context": map[string]any{
+				"city": map[string]any{"@id": v + "city", "@type": xsd + "string"},
+				"zip":  map[string]any{"@id": v + "zip", "@type": xsd + "integer"}}},
+		}},
+	}
+	doc := map[string]any{"@context": ctx, "@id": "urn:person:1", "@type": "Person",
+		"name": "Ann", "age": -41, "member": true, "since": "2021-03-04T05:06:07Z",
+		"address": map[string]any{"city": "Zug", "zip": 6300}}
+	b, _ := json.Marshal(doc)
+	cb, _ := json.Marshal(map[string]any{"@context": ctx})
+	fields := []string{"name", "age", "member", "since", "address.city", "address.zip"}
+	return c02.Input{Doc: b, Hasher: hi, Cfg: true, RngSeed: seed, DSLevel: hi%2 == 0,
+		DocPaths: fields, CtxBytes: cb, TypeTerm: "Person", FieldPaths: fields}
+}
+
 func (d *drv) boundary(hi int, sh *c02.Shards) {
 	p := c02.Families()[hi].Prime()
 	for _, bd := range boundaryDocs(p) {
@@ -329,10 +413,25 @@ func Run(cfg *common.Config) (*common.Report, error) {
 			}
 		}
 		in := c02.Input{Doc: doc.Bytes, Ctx: all, Hasher: i % nfam, Cfg: i%10 != 9, DSLevel: i%5 == 0, RngSeed: cfg.Rng.Int63()}
+		seenFP := map[string]bool{}
 		for li, lf := range doc.Leaves {
 			if li < 6 {
 				in.DocPaths = append(in.DocPaths, strings.Join(lf.DocPath, "."))
+				var terms []string
+				for _, t := range lf.DocPath {
+					if _, err := strconv.Atoi(t); err != nil {
+						terms = append(terms, t)
+					}
+				}
+				if fp := strings.Join(terms, "."); fp != "" && !seenFP[fp] {
+					seenFP[fp] = true
+					in.FieldPaths = append(in.FieldPaths, fp)
+				}
 			}
+		}
+		if c, ok := doc.Obj["@context"]; ok && doc.Root != nil {
+			in.CtxBytes, _ = json.Marshal(map[string]any{"@context": c})
+			in.TypeTerm = doc.Root.Term
 		}
 		if !in.Cfg {
 			in.Hasher = 0
@@ -351,6 +450,13 @@ func Run(cfg *common.Config) (*common.Report, error) {
 		if cfg.Thorough() || hi == 0 || hi >= 4 || hi == 2 {
 			d.boundary(hi, sh)
 		}
+	}
+	// a fixed typed document whose every field resolves through every path API, under every hasher
+	for hi := 0; hi < nfam; hi++ {
+		in := fixedInput(hi, cfg.Rng.Int63())
+		rep.Distinct(fmt.Sprintf("fixed|%d", hi))
+		rep.Count("fixed-typed-document")
+		sh.Add(d.scenario(in))
 	}
 	// several configured merklizers on one caller-provided tree (every hasher family)
 	for i := 0; i < cfg.Pick(nfam, 10*nfam); i++ {
